@@ -351,6 +351,95 @@ namespace
         }
     };
 
+    // ---------- lifecycle vocabulary (C14): every phase logs from user code and may throw on its k-th occurrence ----------
+    std::map<std::pair<long, std::string>, long> g_phase_count;
+
+    void maybe_fault(long id, const char *phase, const NodeView &self, DateTime now)
+    {
+        auto &sp = spec_of(id);
+        const long k = ++g_phase_count[{id, phase}];
+        for (auto &f : split(sp.line.gets("fault", ""), ','))
+        {
+            if (f.empty()) { continue; }
+            auto pq = split(f, ':');
+            if (pq.at(0) == phase && std::stol(pq.at(1)) == k)
+            {
+                J("uthrow").i("id", id).i("g", inst_of(self)).i("n", static_cast<long>(self.node_index())).str("phase", phase).i("t", to_k(now)).emit();
+                throw std::runtime_error("fault " + std::to_string(id) + " " + phase);
+            }
+        }
+    }
+    void ulog(const char *ev, long id, const NodeView &self, DateTime now)
+    {
+        J(ev).i("id", id).i("g", inst_of(self)).i("n", static_cast<long>(self.node_index())).i("t", to_k(now)).emit();
+    }
+
+    struct LSrc
+    {
+        static constexpr auto name              = "l_src";
+        static constexpr bool schedule_on_start = true;
+        static void           start(Scalar<"id", Int> id, State<Int> st, NodeView self, DateTime now)
+        {
+            st.set(Int{0});
+            ulog("ustart", id.value(), self, now);
+            maybe_fault(id.value(), "start", self, now);
+        }
+        static void eval(Scalar<"id", Int> id, Scalar<"cnt", Int> cnt, NodeScheduler sched, State<Int> st, NodeView self, DateTime now,
+                         Out<TS<Int>> out)
+        {
+            ulog("ueval", id.value(), self, now);
+            maybe_fault(id.value(), "eval", self, now);
+            const Int i = st.get();
+            out.set(i);
+            st.set(i + 1);
+            if (i + 1 < cnt.value()) { sched.schedule(MIN_TD); }
+        }
+        static void stop(Scalar<"id", Int> id, NodeView self, DateTime now)
+        {
+            ulog("ustop", id.value(), self, now);
+            maybe_fault(id.value(), "stop", self, now);
+        }
+    };
+    struct LPass
+    {
+        static constexpr auto name = "l_pass";
+        static void           start(Scalar<"id", Int> id, NodeView self, DateTime now)
+        {
+            ulog("ustart", id.value(), self, now);
+            maybe_fault(id.value(), "start", self, now);
+        }
+        static void eval(Scalar<"id", Int> id, In<"x", TS<Int>> x, NodeView self, DateTime now, Out<TS<Int>> out)
+        {
+            ulog("ueval", id.value(), self, now);
+            maybe_fault(id.value(), "eval", self, now);
+            out.set(x.value());
+        }
+        static void stop(Scalar<"id", Int> id, NodeView self, DateTime now)
+        {
+            ulog("ustop", id.value(), self, now);
+            maybe_fault(id.value(), "stop", self, now);
+        }
+    };
+    struct LSink
+    {
+        static constexpr auto name = "l_sink";
+        static void           start(Scalar<"id", Int> id, NodeView self, DateTime now)
+        {
+            ulog("ustart", id.value(), self, now);
+            maybe_fault(id.value(), "start", self, now);
+        }
+        static void eval(Scalar<"id", Int> id, In<"x", TS<Int>> x, NodeView self, DateTime now)
+        {
+            ulog("ueval", id.value(), self, now);
+            maybe_fault(id.value(), "eval", self, now);
+        }
+        static void stop(Scalar<"id", Int> id, NodeView self, DateTime now)
+        {
+            ulog("ustop", id.value(), self, now);
+            maybe_fault(id.value(), "stop", self, now);
+        }
+    };
+
     using TryIntResult = UnNamedTSB<Field<"exception", TS<NodeError>>, Field<"out", TS<Int>>>;
 
     struct VTryOut
@@ -508,6 +597,9 @@ namespace
             else if (kind == "timer") { env.ports.emplace(id, wire<VTimer>(w, sid, Int{l.geti("p", 1)}, Int{l.geti("cnt", 1)})); }
             else if (kind == "throwneg") { env.ports.emplace(id, wire<VThrowNeg>(w, sid, in.at(0))); }
             else if (kind == "rec") { wire<VRec>(w, sid, in.at(0)); }
+            else if (kind == "lsrc") { env.ports.emplace(id, wire<LSrc>(w, sid, Int{l.geti("cnt", 2)})); }
+            else if (kind == "lpass") { env.ports.emplace(id, wire<LPass>(w, sid, in.at(0))); }
+            else if (kind == "lsink") { wire<LSink>(w, sid, in.at(0)); }
             else if (kind == "errof")
             {
                 // error output of the node producing ref in[0]; logged by an error sink
@@ -618,11 +710,7 @@ namespace
             J("gstopped").i("g", inst_of(g)).emit();
             instances().retire(g.data());
         }
-        void on_stop_graph_failed(const GraphView &g) override
-        {
-            J("gstopfail").i("g", inst_of(g)).emit();
-            instances().retire(g.data());
-        }
+        void on_stop_graph_failed(const GraphView &g) override { J("gstopfail").i("g", inst_of(g)).emit(); }
     };
 
     void dump_builder(const GraphBuilder &gb)
@@ -656,6 +744,7 @@ namespace
     {
         g_scn = &scn;
         instances().reset();
+        g_phase_count.clear();
         J("scn").str("name", scn.name).i("start", scn.start).i("end", scn.end).emit();
         std::optional<GraphBuilder> gb;
         try
@@ -682,7 +771,33 @@ namespace
             }
             catch (const std::exception &e)
             {
-                J("ret").i("ok", 0).str("msg", e.what()).emit();
+                // what the caller is told: which root node / phase the message names, which injected faults it quotes
+                const std::string msg = e.what();
+                long              node = -1;
+                std::string       phase;
+                if (auto p = msg.find("node["); p != std::string::npos)
+                {
+                    node = std::atol(msg.c_str() + p + 5);
+                    if (auto q = msg.find("] ", p); q != std::string::npos)
+                    {
+                        auto r = msg.find(' ', q + 2);
+                        phase  = msg.substr(q + 2, r == std::string::npos ? std::string::npos : r - (q + 2));
+                    }
+                }
+                std::string tags = "[";
+                for (auto &[id, sp] : scn.nodes)
+                {
+                    for (const char *ph : {"start", "eval", "stop"})
+                    {
+                        if (msg.find("fault " + std::to_string(id) + " " + ph) != std::string::npos)
+                        {
+                            if (tags.size() > 1) { tags += ","; }
+                            tags += "[" + std::to_string(id) + "," + jstr(ph) + "]";
+                        }
+                    }
+                }
+                tags += "]";
+                J("ret").i("ok", 0).str("msg", msg.substr(0, 300)).i("node", node).str("phase", phase).raw("tags", tags).emit();
             }
             catch (...)
             {
